@@ -171,6 +171,8 @@ class G:
         if focus == "window":
             allow_setop = False
         want_setop = allow_setop and depth > 0 and not want_int and self.d(st.integers(0, 4)) == 0
+        if focus == "setop" and allow_setop and not want_int:
+            want_setop = True
         if want_setop:
             all_aliased = True  # a compound ORDER BY can only name result columns
         if depth > 0 and focus != "window" and self.d(st.integers(0, 5)) == 0:
@@ -279,6 +281,11 @@ class G:
             other = self.select(depth=0, ncols=len(items), allow_setop=False)
             if not other["order"] and len(other["items"]) == len(items):
                 setop = [self.d(st.sampled_from(["union", "union_all", "intersect", "except_of"])), other]
+                # the operand may itself be a set operation, passed as one object: a.op(b.op2(c)) means a OP (b OP2 c)
+                if other["limit"] is None and other["offset"] is None and (focus == "setop" or self.d(st.integers(0, 2)) == 0):
+                    third = self.select(depth=0, ncols=len(items), allow_setop=False)
+                    if not third["order"] and third["limit"] is None and third["offset"] is None and len(third["items"]) == len(items):
+                        other["setop"] = [self.d(st.sampled_from(["union", "union_all", "intersect", "except_of"])), third]
         return {"kind": "select", "sources": sources, "joins": joins, "items": items, "distinct": distinct, "where": where, "group": group, "having": having,
                 "order": order, "limit": limit, "offset": offset, "setop": setop}
 
@@ -371,8 +378,11 @@ def database(draw):
 @st.composite
 def case_st(draw):
     g = G(draw)
-    if draw(st.integers(0, 11)) == 0:
+    fc = draw(st.integers(0, 11))
+    if fc == 0:
         g.focus = "window"
+    elif fc == 1:
+        g.focus = "setop"  # the next top-level select is a set operation whose operand is a set operation
     sa = g.select(depth=draw(st.sampled_from([0, 1, 1, 2]))) if draw(st.integers(0, 9)) < 6 else g.dml()
     dbs = [draw(database()) for _ in range(3)]
     return {"sa": sa, "dbs": dbs, "avoided": g.avoided}
@@ -653,7 +663,9 @@ def R_select(sa, top=True):
         sql += " HAVING " + R_expr(sa["having"], qual)
     if sa["setop"]:
         op = {"union": "UNION", "union_all": "UNION ALL", "intersect": "INTERSECT", "except_of": "EXCEPT"}[sa["setop"][0]]
-        sql += " %s %s" % (op, R_select(sa["setop"][1]))
+        other = sa["setop"][1]
+        # SQLite has no bracketed operands: a compound operand is written as a FROM-subquery
+        sql += " %s %s" % (op, ("SELECT * FROM (%s)" % R_select(other)) if (other.get("setop") or other["limit"] is not None or other["offset"] is not None) else R_select(other))
     if sa["order"]:
         # positions are unambiguous for plain and compound selects alike
         sql += " ORDER BY " + ", ".join("%d%s" % (i + 1, " " + od.upper() if od else "") for i, od in sa["order"])
@@ -838,6 +850,8 @@ def feature(sa):
     if sa["kind"] != "select":
         return sa["kind"]
     text = json.dumps(sa)
+    if sa["setop"] and sa["setop"][1].get("setop"):
+        return "nested_setop_operand"
     wins = [it["e"] for it in sa["items"] if it["e"][0] == "win"]
     if any(len(w) > 5 and w[5] for w in wins):
         return "window_frame"
@@ -934,6 +948,8 @@ def run_shard(shard):
             for f in ("joins", "group", "order", "setop", "distinct", "having"):
                 if sa[f]:
                     classes.append("has:" + f)
+            if sa["setop"] and sa["setop"][1].get("setop"):
+                classes.append("has:nested_setop_operand")
             if any("sub" in s for s in sa["sources"]):
                 classes.append("has:from_subquery")
             aggs = [it["e"] for it in sa["items"] if it["e"][0] == "agg"] + ([sa["having"][1]] if sa["having"] and sa["having"][1][0] == "agg" else [])
